@@ -168,12 +168,22 @@ func c06Observers(u c06Uni, others []string) (spec string, observe func(c *Ctx, 
 	return
 }
 
+// stored content per model (loaded by a leading "load" op): for the priority model two rules
+// stored in the wrong order, so that the load re-sorts the list and rebuilds the index
+var c06Content = map[string][]prule{
+	"priority": {{"p", []string{"5", "c", "z", "r", "allow"}}, {"p", []string{"0", "c", "w", "r", "deny"}}},
+}
+
 func c06Case(c *Ctx, id string, conf machConf, u c06Uni, ops []mOp, guardLast bool) (finalKey string) {
 	spec, observe := c06Observers(u, nil)
-	c.Case(id, fmt.Sprintf("(cfg %s) (flags 0 0 none) (content) (obs %s) (ops %s)",
-		strings.TrimSuffix(strings.TrimPrefix(conf.Sx(), "("), ")"), spec,
+	var cs []string
+	for _, x := range c06Content[conf.Name] {
+		cs = append(cs, L(Q(x.Pt), QL(x.Rule)))
+	}
+	c.Case(id, fmt.Sprintf("(cfg %s) (flags 0 0 none) (content %s) (obs %s) (ops %s)",
+		strings.TrimSuffix(strings.TrimPrefix(conf.Sx(), "("), ")"), strings.Join(cs, " "), spec,
 		strings.TrimSuffix(strings.TrimPrefix(opsSx(ops), "("), ")")))
-	m := newMach(conf, false, false, "none", nil)
+	m := newMach(conf, false, false, "none", c06Content[conf.Name])
 	for k, o := range ops {
 		var before [][]string
 		isG := conf.Def(u.Pt).IsG
@@ -236,6 +246,14 @@ func init() {
 					prefix = append(prefix, mOp{Kind: "add", Pt: d.Pt, R1: [][]string{r}})
 				}
 			}
+			if len(c06Content[t.conf.Name]) > 0 {
+				prefix = append(prefix, mOp{Kind: "load"})
+				// the loaded rules take part in the universe's operations
+				for _, x := range c06Content[t.conf.Name] {
+					alpha = append(alpha, mOp{Kind: "remove", Pt: x.Pt, R1: [][]string{x.Rule}},
+						mOp{Kind: "update", Pt: x.Pt, R1: [][]string{x.Rule}, R2: [][]string{append([]string{x.Rule[0], "d"}, x.Rule[2:]...)}})
+				}
+			}
 			seen := map[string]bool{}
 			queue := []node{{path: prefix}}
 			seen[""] = true
@@ -244,14 +262,14 @@ func init() {
 				n := queue[0]
 				queue = queue[1:]
 				nstates++
-				if nstates > 400 {
-					// a 4-rule universe has 65 ordered duplicate-free lists: far more reachable
+				if nstates > 1200 {
+					// a 4-rule universe (+2 loaded rules in the priority model) has at most a few hundred ordered duplicate-free lists: far more reachable
 					// states mean that rules are listed more than once
-					c.Direct("c06."+t.pt+".states", "the state space of a 4-rule universe did not close (more than 400 distinct listings reached: rules are being listed more than once)", opsSx(n.path))
+					c.Direct("c06."+t.pt+".states", "the state space of a 4-rule universe did not close (more than 1200 distinct listings reached: rules are being listed more than once)", opsSx(n.path))
 					break
 				}
 				// listed rules in this state (replay)
-				m0 := newMach(t.conf, false, false, "none", nil)
+				m0 := newMach(t.conf, false, false, "none", c06Content[t.conf.Name])
 				for _, o := range n.path {
 					m0.apply(o)
 				}
@@ -433,6 +451,69 @@ func init() {
 			}
 			c.NonTrivial(id)
 			c.Count("random-history")
+		}
+		// (3) histories with auto-save ON over the recording adapter (the shared generator of the
+		// machine properties): UpdateFilteredPolicies is only meaningful with an adapter (F09), so
+		// the store's behaviour under it - also when a new rule equals a rule the filter selects -
+		// is exercised here; result, listing and presence compared with the model at every step
+		na := 600
+		if c.Thorough() {
+			na = 8000
+		}
+		for h := 0; h < na; h++ {
+			conf := []machConf{machRBAC, machDomain}[h%2]
+			us := machUniverses(conf)
+			m := newMach(conf, true, false, "none", nil)
+			var ops []mOp
+			type rec struct{ res, listed, has string }
+			var recs []rec
+			hasKey := func() string {
+				var b strings.Builder
+				for _, u := range us {
+					for _, r := range u.Rules {
+						var ok bool
+						if u.IsG {
+							ok, _ = m.E.HasNamedGroupingPolicy(u.Pt, toIface(r)...)
+						} else {
+							ok, _ = m.E.HasNamedPolicy(u.Pt, toIface(r)...)
+						}
+						b.WriteString(B(ok))
+						if ok != containsRule(m.current(u.Pt), r) {
+							c.Direct(fmt.Sprintf("c06.auto.%d", h), "HasPolicy disagrees with the listed rules", fmt.Sprint(opsSx(ops), r))
+						}
+					}
+					b.WriteString(".")
+				}
+				return b.String()
+			}
+			n := 6 + c.Rng.Intn(15)
+			for len(ops) < n {
+				op := machGenOp(c.Rng, m, us, machGenOpts{Load: h%3 == 0, Save: h%5 == 0, Self: true, UpdateFiltered: true})
+				if op == nil {
+					continue
+				}
+				res := m.apply(*op)
+				ops = append(ops, *op)
+				recs = append(recs, rec{res, m.listedKey(), hasKey()})
+				c.Count("auto:" + op.Kind)
+			}
+			id := fmt.Sprintf("c06.auto.%d", h)
+			var hasSpec []string
+			for _, u := range us {
+				hasSpec = append(hasSpec, L("has", Q(u.Pt), QLL(u.Rules)))
+			}
+			c.Case(id, fmt.Sprintf("(cfg %s) (flags 1 0 none) (content) (obs res listed %s) (ops %s)",
+				strings.TrimSuffix(strings.TrimPrefix(conf.Sx(), "("), ")"), strings.Join(hasSpec, " "),
+				strings.TrimSuffix(strings.TrimPrefix(opsSx(ops), "("), ")")))
+			for k, r := range recs {
+				c.Obs(id, fmt.Sprintf("%d.res", k), r.res)
+				c.Obs(id, fmt.Sprintf("%d.listed", k), r.listed)
+				parts := strings.Split(strings.TrimSuffix(r.has, "."), ".")
+				for i, u := range us {
+					c.Obs(id, fmt.Sprintf("%d.has.%s", k, u.Pt), parts[i])
+				}
+			}
+			c.NonTrivial(id)
 		}
 		c.Exhaust = false // the random part is a sample; the enumeration part is complete for its universe
 		c.Notes = append(c.Notes, "enumeration part exhaustive for the 4-rule universe (all reachable ordered lists x whole alphabet); random part seeded")
